@@ -13,8 +13,11 @@ open DepsDev DepsDev.Semver Digits
 /-- Bytes of a prerelease/build identifier: `[0-9A-Za-z-]`. -/
 def isIdentB (c : UInt8) : Bool := c == 45 || isAlnumB c
 
-/-- A non-empty identifier over `[0-9A-Za-z-]`. -/
-def IdentOk (s : Bytes) : Bool := !s.isEmpty && s.all isIdentB
+/-- Identifier bytes of system `s`: `[0-9A-Za-z-]`, and for NuGet also `*` (floating versions). -/
+def identByte (s : System) (c : UInt8) : Bool := isIdentB c || (s == .nuget && c == 42)
+
+/-- A non-empty identifier of system `s` (for NuGet with at most one `*`, as its scanner accepts). -/
+def IdentOk (s : System) (i : Bytes) : Bool := !i.isEmpty && i.all (identByte s) && decide (i.count 42 ≤ 1)
 
 theorem forall_uint8' (P : UInt8 → Prop) (h : ∀ n, n < 256 → P (UInt8.ofNat n)) : ∀ c, P c :=
   forall_uint8 P h
@@ -36,59 +39,107 @@ theorem StopsIdent.stops {ys : Bytes} (h : StopsIdent ys) : Stops isAlnumHyphenR
   · exact Or.inl h
   · exact Or.inr ⟨c, r, h, hc, not_ident_all c hd⟩
 
-theorem scanNuGet_go (xs ys : Bytes) (hx : ∀ c ∈ xs, isIdentB c = true) (hy : StopsIdent ys) (seen : Bool) :
-    ∀ (l : Lex) (fuel : Nat), l.rest = xs ++ ys → xs.length < fuel →
+theorem scanNuGet_go_succ (l : Lex) (seen : Bool) (k : Nat) :
+    PS.scanNuGetElem.go l seen (k + 1) =
+      if isAlnumHyphenRune l.next.1 = true then PS.scanNuGetElem.go l.next.2 seen k
+      else if (l.next.2.back.next.1 == 42 && !seen) = true then PS.scanNuGetElem.go l.next.2.back.next.2 true k
+      else l.next.2.back.next.2.back := rfl
+
+theorem scanNuGet_go (xs ys : Bytes) (hx : ∀ c ∈ xs, isIdentB c = true ∨ c = 42) (hy : StopsIdent ys) :
+    ∀ (seen : Bool) (l : Lex) (fuel : Nat), l.rest = xs ++ ys → xs.length < fuel →
+      xs.count 42 ≤ (if seen then 0 else 1) →
       PS.scanNuGetElem.go l seen fuel = { l with rest := ys, prev := ys } := by
   induction xs with
   | nil =>
-    intro l fuel hr hf
+    intro seen l fuel hr hf _
     obtain ⟨fuel, rfl⟩ : ∃ k, fuel = k + 1 := ⟨fuel - 1, by simp at hf; omega⟩
     simp only [List.nil_append] at hr
+    rw [scanNuGet_go_succ]
     rcases hy with rfl | ⟨c, r, rfl, hc, hpc, h42⟩
-    · have e : isAlnumHyphenRune eof = false := by decide
-      simp only [PS.scanNuGetElem.go, next_nil l hr, e, Bool.false_eq_true, ↓reduceIte, Lex.back]
-      rw [next_nil _ rfl]
-      have : ((eof : Rune) == 42) = false := by decide
-      simp [this]
-    · have e := not_ident_all c hpc
-      simp only [PS.scanNuGetElem.go, next_vs l c r hr hc, e, Bool.false_eq_true, ↓reduceIte, Lex.back]
-      rw [next_vs _ c r rfl hc]
-      have : (((c.toNat : Int) : Rune) == 42) = false := by
+    · have h1 : l.next = (eof, { l with prev := [] }) := next_nil l hr
+      have h2 : l.next.2.back = { l with prev := [] } := by rw [h1]; simp [Lex.back, hr]
+      have h3 : ({ l with prev := [] } : Lex).next = (eof, { l with prev := [] }) := next_nil _ hr
+      rw [h2, h3, h1]
+      have e : isAlnumHyphenRune eof = false := by decide
+      have e2 : ((eof : Rune) == 42) = false := by decide
+      simp only [e, e2, Bool.false_eq_true, ↓reduceIte, Bool.false_and]
+      simp [Lex.back, hr]
+    · have h1 : l.next = ((c.toNat : Int), { l with rest := r, prev := c :: r }) := next_vs l c r hr hc
+      have h2 : l.next.2.back = { l with rest := c :: r, prev := c :: r } := by rw [h1]; rfl
+      have h3 : ({ l with rest := c :: r, prev := c :: r } : Lex).next =
+          ((c.toNat : Int), { l with rest := r, prev := c :: r }) := next_vs _ c r rfl hc
+      rw [h2, h3, h1]
+      have e := not_ident_all c hpc
+      have e2 : (((c.toNat : Int) : Rune) == 42) = false := by
         have : c.toNat ≠ 42 := fun e => h42 (UInt8.toNat_inj.mp e)
         rw [beq_eq_false_iff_ne]; show ¬ ((c.toNat : Int) = 42); omega
-      simp [this]
+      simp only [e, e2, Bool.false_eq_true, ↓reduceIte, Bool.false_and]
+      rfl
   | cons x xs ih =>
-    intro l fuel hr hf
+    intro seen l fuel hr hf hcnt
     obtain ⟨fuel, rfl⟩ : ∃ k, fuel = k + 1 := ⟨fuel - 1, by simp at hf; omega⟩
-    have hx0 := ident_vs_all x (hx x (by simp))
     simp only [List.cons_append] at hr
-    simp only [PS.scanNuGetElem.go, next_vs l x _ hr hx0.1, hx0.2, ↓reduceIte]
-    rw [ih (fun c hc => hx c (by simp [hc])) _ fuel rfl (by simpa using hf)]
+    rw [scanNuGet_go_succ]
+    rcases hx x (by simp) with hxi | rfl
+    · have hx0 := ident_vs_all x hxi
+      have h1 : l.next = ((x.toNat : Int), { l with rest := xs ++ ys, prev := x :: (xs ++ ys) }) := next_vs l x _ hr hx0.1
+      have hne : x ≠ 42 := by intro e; subst e; exact absurd hxi (by decide)
+      rw [h1]
+      simp only [hx0.2, ↓reduceIte]
+      rw [ih (fun c hc => hx c (by simp [hc])) seen _ fuel rfl (by simpa using hf)
+        (by rw [List.count_cons_of_ne hne] at hcnt; exact hcnt)]
+    · -- the (single) `*`
+      have hv : isVS 42 = true := by decide
+      have hseen : seen = false := by
+        cases seen with
+        | false => rfl
+        | true => simp at hcnt
+      subst hseen
+      have hc0 : xs.count 42 ≤ 0 := by simp at hcnt; omega
+      have h1 : l.next = (((42 : UInt8).toNat : Int), { l with rest := xs ++ ys, prev := 42 :: (xs ++ ys) }) := next_vs l 42 _ hr hv
+      have h2 : l.next.2.back = { l with rest := 42 :: (xs ++ ys), prev := 42 :: (xs ++ ys) } := by rw [h1]; rfl
+      have h3 : ({ l with rest := 42 :: (xs ++ ys), prev := 42 :: (xs ++ ys) } : Lex).next =
+          (((42 : UInt8).toNat : Int), { l with rest := xs ++ ys, prev := 42 :: (xs ++ ys) }) := next_vs _ 42 _ rfl hv
+      rw [h2, h3, h1]
+      have e : isAlnumHyphenRune (((42 : UInt8).toNat : Int)) = false := by decide
+      have e2 : ((((42 : UInt8).toNat : Int) : Rune) == 42 && !false) = true := by decide
+      simp only [e, e2, Bool.false_eq_true, ↓reduceIte]
+      rw [ih (fun c hc => hx c (by simp [hc])) true _ fuel rfl (by simpa using hf) (by simpa using hc0)]
 
-theorem scanNuGet_block (xs ys : Bytes) (hx : ∀ c ∈ xs, isIdentB c = true) (hy : StopsIdent ys)
-    (l : Lex) (hr : l.rest = xs ++ ys) :
+theorem scanNuGet_block (xs ys : Bytes) (hx : ∀ c ∈ xs, isIdentB c = true ∨ c = 42) (hc : xs.count 42 ≤ 1)
+    (hy : StopsIdent ys) (l : Lex) (hr : l.rest = xs ++ ys) :
     PS.scanNuGetElem l = { l with rest := ys, prev := ys } := by
   unfold PS.scanNuGetElem
-  exact scanNuGet_go xs ys hx hy false l _ hr (by rw [hr]; simp; omega)
+  exact scanNuGet_go xs ys hx hy false l _ hr (by rw [hr]; simp; omega) (by simpa using hc)
 
 /-- `elem` on an identifier followed by a stopping byte. -/
-theorem elem_ident (p : PS) (id ys : Bytes) (hr : p.lex.rest = id ++ ys) (hid : IdentOk id = true) (hy : StopsIdent ys) :
+theorem elem_ident (p : PS) (id ys : Bytes) (hr : p.lex.rest = id ++ ys) (hid : IdentOk p.v.sys id = true)
+    (hy : StopsIdent ys) :
     PS.elem p = (some id, { p with lex := { p.lex with rest := ys, prev := ys } }) := by
-  simp only [IdentOk, Bool.and_eq_true, Bool.not_eq_true', List.isEmpty_eq_false_iff, List.all_eq_true] at hid
+  simp only [IdentOk, Bool.and_eq_true, Bool.not_eq_true', List.isEmpty_eq_false_iff, List.all_eq_true,
+    decide_eq_true_eq] at hid
+  obtain ⟨⟨hne, hall⟩, hcnt⟩ := hid
   have hscan : (if p.v.sys == .nuget then PS.scanNuGetElem p.lex else PS.scanWhile isAlnumHyphenRune p.lex) =
       { p.lex with rest := ys, prev := ys } := by
     split
-    · exact scanNuGet_block id ys hid.2 hy p.lex hr
-    · exact scanWhile_block isAlnumHyphenRune (by decide) id ys (fun c hc => ident_vs_all c (hid.2 c hc)) hy.stops p.lex hr
+    · refine scanNuGet_block id ys ?_ hcnt hy p.lex hr
+      intro c hc
+      have := hall c hc
+      simp only [identByte, Bool.or_eq_true, Bool.and_eq_true, beq_iff_eq] at this
+      exact this.imp (fun h => h) (fun h => h.2)
+    · rename_i hn
+      refine scanWhile_block isAlnumHyphenRune (by decide) id ys (fun c hc => ident_vs_all c ?_) hy.stops p.lex hr
+      have := hall c hc
+      simp only [identByte, hn, Bool.false_and, Bool.or_false] at this
+      exact this
   unfold PS.elem
   simp only [hscan, hr, List.length_append]
-  have hpos : 0 < id.length := List.length_pos_iff.mpr hid.1
+  have hpos : 0 < id.length := List.length_pos_iff.mpr hne
   have : (id.length + ys.length - ys.length == 0) = false := by rw [beq_eq_false_iff_ne]; omega
   simp only [this, Bool.false_eq_true, ↓reduceIte]
   have : id.length + ys.length - ys.length = id.length := by omega
   rw [this, List.take_left']
   rfl
-
 
 /-- What may follow a dot-separated identifier list: the end, or an accepted byte outside
 `[0-9A-Za-z-]` other than `*` and `.`. -/
@@ -110,7 +161,7 @@ theorem StopsMeta.next_ne_dot {ys : Bytes} (h : StopsMeta ys) (l : Lex) (hr : l.
 
 theorem metadata_go (ys : Bytes) (hy : StopsMeta ys) (ids : List Bytes) :
     ∀ (id : Bytes) (p : PS) (acc : List Bytes) (r0 : Rune) (fuel : Nat),
-      p.lex.rest = joinWith 46 (id :: ids) ++ ys → (∀ i ∈ id :: ids, IdentOk i = true) → ids.length < fuel →
+      p.lex.rest = joinWith 46 (id :: ids) ++ ys → (∀ i ∈ id :: ids, IdentOk p.v.sys i = true) → ids.length < fuel →
       PS.metadata.go p acc r0 fuel =
         (acc ++ id :: ids, ({ p.lex with rest := ys, prev := ys } : Lex).next.1,
           { p with lex := ({ p.lex with rest := ys, prev := ys } : Lex).next.2 }) := by
@@ -133,7 +184,8 @@ theorem metadata_go (ys : Bytes) (hy : StopsMeta ys) (ids : List Bytes) :
     rw [next_vs _ 46 (joinWith 46 (b :: rest) ++ ys) rfl (by decide)]
     have h46 : (((46 : UInt8).toNat : Int) == (46 : Rune)) = true := by decide
     simp only [h46, ↓reduceIte]
-    rw [ih b _ _ _ fuel rfl (fun i hi => hid i (by simp at hi ⊢; right; exact hi)) (by simpa using hf)]
+    rw [ih b { v := p.v, lex := { p.lex with rest := joinWith 46 (b :: rest) ++ ys, prev := 46 :: (joinWith 46 (b :: rest) ++ ys) } }
+      _ _ fuel rfl (fun i hi => hid i (by simp at hi ⊢; right; exact hi)) (by simpa using hf)]
     simp
 
 
@@ -147,7 +199,7 @@ theorem joinWith_length (id : Bytes) (ids : List Bytes) : ids.length ≤ (joinWi
 
 /-- `metadata` on `id1.id2.….idk` followed by a stopping byte (or the end). -/
 theorem metadata_idents (ys : Bytes) (hy : StopsMeta ys) (id : Bytes) (ids : List Bytes) (p : PS)
-    (hr : p.lex.rest = joinWith 46 (id :: ids) ++ ys) (hid : ∀ i ∈ id :: ids, IdentOk i = true) :
+    (hr : p.lex.rest = joinWith 46 (id :: ids) ++ ys) (hid : ∀ i ∈ id :: ids, IdentOk p.v.sys i = true) :
     PS.metadata p =
       (id :: ids, ({ p.lex with rest := ys, prev := ys } : Lex).next.1,
         { p with lex := ({ p.lex with rest := ys, prev := ys } : Lex).next.2 }) := by
@@ -170,7 +222,7 @@ def renderBuild : List Bytes → Bytes
 
 /-- Stage 2 on `-id1.….idk` (the `-` already consumed, `r = '-'`). -/
 theorem gPre_dash (sys : System) (p : PS) (ys : Bytes) (hy : StopsMeta ys) (id : Bytes) (ids : List Bytes)
-    (hr : p.lex.rest = joinWith 46 (id :: ids) ++ ys) (hid : ∀ i ∈ id :: ids, IdentOk i = true)
+    (hr : p.lex.rest = joinWith 46 (id :: ids) ++ ys) (hid : ∀ i ∈ id :: ids, IdentOk p.v.sys i = true)
     (h3 : 3 ≤ p.v.num.length) :
     PS.gPre sys p 45 =
       .ok ({ v := { p.v with isPrerelease := true, pre := p.v.pre ++ id :: ids },
@@ -193,7 +245,7 @@ theorem gPre_none (sys : System) (hs : Generic sys = true) (p : PS) (r : Rune) (
 
 /-- Stage 3 on `+id1.….idk` up to the end of the input (the `+` already consumed). -/
 theorem gBuild_plus (sys : System) (hs : Generic sys = true) (p : PS) (id : Bytes) (ids : List Bytes)
-    (hr : p.lex.rest = joinWith 46 (id :: ids)) (hid : ∀ i ∈ id :: ids, IdentOk i = true)
+    (hr : p.lex.rest = joinWith 46 (id :: ids)) (hid : ∀ i ∈ id :: ids, IdentOk p.v.sys i = true)
     (h3 : 3 ≤ p.v.num.length) :
     PS.gBuild sys p 43 =
       .ok ({ v := { p.v with build := 43 :: joinWith 46 (id :: ids) },
@@ -264,7 +316,7 @@ theorem gTail_of (sys : System) (p p1 p2 : PS) (r r1 r2 : Rune)
 /-- Stages 2–4 on `[-pre][+build]` after the numbers. -/
 theorem tail_render (sys : System) (hs : Generic sys = true) (ai : Bool) (v : Version) (h3 : 3 ≤ v.num.length)
     (hv : v.pre = []) (pre build : List Bytes)
-    (hpre : ∀ i ∈ pre, IdentOk i = true) (hbuild : ∀ i ∈ build, IdentOk i = true) :
+    (hpre : ∀ i ∈ pre, IdentOk v.sys i = true) (hbuild : ∀ i ∈ build, IdentOk v.sys i = true) :
     gTail sys
         { v := v, lex := ({ rest := renderPre pre ++ renderBuild build, prev := renderPre pre ++ renderBuild build, allowInf := ai, err := false } : Lex).next.2 }
         ({ rest := renderPre pre ++ renderBuild build, prev := renderPre pre ++ renderBuild build, allowInf := ai, err := false } : Lex).next.1 =
@@ -337,7 +389,7 @@ namespace SemVerAst
 def Valid (sys : System) (ai : Bool) (a : SemVerAst) : Prop :=
   3 ≤ a.nums.length ∧ LenOk sys a.nums.length ∧ (∀ x ∈ a.nums, NumOk ai x) ∧
   (sys = .nuget → a.nums.length = 4 → a.nums[3]? ≠ some 0) ∧
-  (∀ i ∈ a.pre, IdentOk i = true) ∧ (∀ i ∈ a.build, IdentOk i = true)
+  (∀ i ∈ a.pre, IdentOk sys i = true) ∧ (∀ i ∈ a.build, IdentOk sys i = true)
 
 /-- The canonical text (with build metadata). -/
 def render (sys : System) (a : SemVerAst) : Bytes :=
